@@ -336,6 +336,13 @@ def oracle(c, runs):
 # whose internals the stepping harness cannot see.  The module-level `random` inside onl.netdev.wire is replaced by a
 # seeded `random.Random` instance (every method of the module is there) that records the `uniform` draws.
 
+ASSUMPTIONS.append(
+    'black-box cases: the k-th delay a bare wire draws belongs to its k-th packet that is not discarded (the oracle stands down when the counts differ); '
+    'a cable gets a constant delay because its two directions share one `delay_dist`. "Independently with probability p" is judged only through events '
+    'of probability <= 2^-24 under independence ((p^2+(1-p)^2)^n for two equal loss patterns over n packets - two devices with the same traffic, or one '
+    'device under two seeds of the `random` module -, (1-p)^n / p^n for a wire that keeps / discards everything); nothing else is claimed about the distribution')
+
+
 class BBRandom(random.Random):
     Random, SystemRandom = random.Random, random.SystemRandom
 
